@@ -993,6 +993,50 @@ func c08BadTail(c *Ctx) {
 	}
 }
 
+// sections with many definitions (x, x2, ..., x14 in every section): none is dropped
+func c08ManyDefs(c *Ctx) {
+	for _, n := range []int{9, 10, 11, 14} {
+		var b strings.Builder
+		secs := []struct{ head, key, val string }{
+			{"request_definition", "r", "sub, obj, act"}, {"policy_definition", "p", "sub, obj, act"}, {"role_definition", "g", "_, _"},
+			{"policy_effect", "e", "some(where (p.eft == allow))"}, {"matchers", "m", "r.sub == p.sub"}}
+		for _, sc := range secs {
+			b.WriteString("[" + sc.head + "]\n")
+			for i := 1; i <= n; i++ {
+				k := sc.key
+				if i > 1 {
+					k = fmt.Sprintf("%s%d", sc.key, i)
+				}
+				v := sc.val
+				if sc.key == "m" && i > 1 {
+					v = fmt.Sprintf("r%d.sub == p%d.sub", i, i)
+				}
+				if sc.key == "e" && i > 1 {
+					v = fmt.Sprintf("some(where (p%d.eft == allow))", i)
+				}
+				b.WriteString(k + " = " + v + "\n")
+			}
+		}
+		m, err := model.NewModelFromString(b.String())
+		id := fmt.Sprintf("c08.manydefs.%d", n)
+		if err != nil {
+			c.Direct(id, "a model with "+fmt.Sprint(n)+" definitions per section is rejected: "+err.Error(), "")
+			continue
+		}
+		for _, sc := range secs {
+			if got := len(m[sc.key]); got != n {
+				var keys []string
+				for k := range m[sc.key] {
+					keys = append(keys, k)
+				}
+				sort.Strings(keys)
+				c.Direct(id, fmt.Sprintf("section %s has %d definitions in the text but %d in the model", sc.head, n, got), strings.Join(keys, " "))
+			}
+		}
+		c.Count("many-definitions")
+	}
+}
+
 func (g *c08Gen) pick(ss []string) string { return ss[g.c.Rng.Intn(len(ss))] }
 
 func (g *c08Gen) tokenList() string {
@@ -1216,6 +1260,7 @@ func init() {
 	register("C08", func(c *Ctx) {
 		c08LongSkips(c)
 		c08BadTail(c)
+		c08ManyDefs(c)
 		g := &c08Gen{c: c, longEvery: 3}
 		nExact, nLoose, nGen, nHostile := 32, 6, 50, 5000
 		if c.Thorough() {
